@@ -607,3 +607,227 @@ Proof.
   exists (mk_poly (sq 0 0 8 8) [] None), (Pt (4, 4) None), (Some (mkiv 0 10)), (Some (mkiv 5 15)).
   vm_compute. discriminate.
 Qed.
+
+(* ------------------------------------------------------------------ what a hit means *)
+(* the rational point (xn/dv, yn/dv), dv > 0, lies on the line through a1 a2 / in the bounding
+   box of a1 a2; both together: on the closed segment *)
+Definition on_line (a1 a2 : pt) (xn yn dv : Z) : Prop :=
+  (px a2 - px a1) * (yn - py a1 * dv) - (py a2 - py a1) * (xn - px a1 * dv) = 0.
+Definition in_box (a1 a2 : pt) (xn yn dv : Z) : Prop :=
+  Z.min (px a1) (px a2) * dv <= xn <= Z.max (px a1) (px a2) * dv /\
+  Z.min (py a1) (py a2) * dv <= yn <= Z.max (py a1) (py a2) * dv.
+Definition on_seg_q (s : seg) (xn yn dv : Z) : Prop :=
+  on_line (fst s) (snd s) xn yn dv /\ in_box (fst s) (snd s) xn yn dv.
+
+(* direction vectors are not parallel *)
+Definition nonparallel (s1 s2 : seg) : Prop :=
+  (px (fst s1) - px (snd s1)) * (py (fst s2) - py (snd s2)) -
+  (px (fst s2) - px (snd s2)) * (py (fst s1) - py (snd s1)) <> 0.
+
+Lemma mul_le_cancel_pos a b t : 0 < t -> a * t <= b * t -> a <= b.
+Proof. intros. nia. Qed.
+
+Lemma hitc_spec a1 a2 b1 b2 :
+  hitc a1 a2 b1 b2 = true <->
+  nonparallel (a1, a2) (b1, b2) /\
+  exists xn yn dv, 0 < dv /\ on_seg_q (a1, a2) xn yn dv /\ on_seg_q (b1, b2) xn yn dv.
+Proof.
+  destruct a1 as [x1 y1], a2 as [x2 y2], b1 as [x3 y3], b2 as [x4 y4].
+  unfold hitc, nonparallel, on_seg_q, on_line, in_box, bounds_overlap, det2, px, py. cbn [fst snd]. cbv zeta.
+  set (D := (x1 - x2) * (y3 - y4) - (x3 - x4) * (y1 - y2)).
+  set (N := (x1 * y2 - y1 * x2) * (x3 - x4) - (x3 * y4 - y3 * x4) * (x1 - x2)).
+  set (M := (x1 * y2 - y1 * x2) * (y3 - y4) - (x3 * y4 - y3 * x4) * (y1 - y2)).
+  assert (L1 : (x2 - x1) * (M - y1 * D) - (y2 - y1) * (N - x1 * D) = 0) by (unfold D, N, M; ring).
+  assert (L2 : (x4 - x3) * (M - y3 * D) - (y4 - y3) * (N - x3 * D) = 0) by (unfold D, N, M; ring).
+  assert (C1 : forall u v t, (x2 - x1) * (v - y1 * t) - (y2 - y1) * (u - x1 * t) = 0 ->
+                             (x4 - x3) * (v - y3 * t) - (y4 - y3) * (u - x3 * t) = 0 ->
+                             u * D = t * N /\ v * D = t * M).
+  { intros u v t E1 E2. split.
+    - assert (X : u * D - t * N =
+        ((x4 - x3) * (v - y3 * t) - (y4 - y3) * (u - x3 * t)) * (x1 - x2) -
+        ((x2 - x1) * (v - y1 * t) - (y2 - y1) * (u - x1 * t)) * (x3 - x4)) by (unfold D, N; ring).
+      rewrite E1, E2 in X. lia.
+    - assert (X : v * D - t * M =
+        ((x4 - x3) * (v - y3 * t) - (y4 - y3) * (u - x3 * t)) * (y1 - y2) -
+        ((x2 - x1) * (v - y1 * t) - (y2 - y1) * (u - x1 * t)) * (y3 - y4)) by (unfold D, M; ring).
+      rewrite E1, E2 in X. lia. }
+  clearbody D N M.
+  generalize dependent (Z.min x1 x2). generalize dependent (Z.max x1 x2).
+  generalize dependent (Z.min y1 y2). generalize dependent (Z.max y1 y2).
+  generalize dependent (Z.min x3 x4). generalize dependent (Z.max x3 x4).
+  generalize dependent (Z.min y3 y4). generalize dependent (Z.max y3 y4).
+  intros hy2 ly2 hx2 lx2 hy1 ly1 hx1 lx1.
+  split.
+  - intros H. repeat (apply andb_true_iff in H as [H ?]).
+    assert (HD : D <> 0) by lia. split; [exact HD|].
+    exists (sgn_fix D N), (sgn_fix D M), (Z.abs D).
+    split; [lia|]. unfold sgn_fix in *.
+    destruct (D <? 0) eqn:E.
+    + replace (Z.abs D) with (- D) in * by lia.
+      repeat split; lia.
+    + replace (Z.abs D) with D in * by lia. repeat split; try lia.
+  - intros [HD [u [v [t [Ht [[E1 [[Bx1 Bx1'] [By1 By1']]] [E2 [[Bx2 Bx2'] [By2 By2']]]]]]]]].
+    destruct (C1 u v t E1 E2) as [Cu Cv].
+    assert (Ov : Z.max lx1 lx2 <= Z.min hx1 hx2 /\ Z.max ly1 ly2 <= Z.min hy1 hy2).
+    { split; apply Z.max_lub; apply Z.min_glb; apply (mul_le_cancel_pos _ _ t Ht); lia. }
+    set (dv := Z.abs D). set (xn := sgn_fix D N). set (yn := sgn_fix D M).
+    assert (Hdv : 0 < dv) by (unfold dv; lia).
+    assert (Kx : u * dv = t * xn).
+    { unfold dv, xn, sgn_fix. destruct (D <? 0) eqn:E; [replace (Z.abs D) with (- D) by lia | replace (Z.abs D) with D by lia]; lia. }
+    assert (Ky : v * dv = t * yn).
+    { unfold dv, yn, sgn_fix. destruct (D <? 0) eqn:E; [replace (Z.abs D) with (- D) by lia | replace (Z.abs D) with D by lia]; lia. }
+    assert (LO : forall lo w z, lo * t <= w -> w * dv = t * z -> lo * dv <= z).
+    { intros lo w0 z H1 H2. apply (mul_le_cancel_pos _ _ t Ht).
+      assert (lo * t * dv <= w0 * dv) by (apply Z.mul_le_mono_nonneg_r; lia). lia. }
+    assert (HI : forall hi w z, w <= hi * t -> w * dv = t * z -> z <= hi * dv).
+    { intros hi w0 z H1 H2. apply (mul_le_cancel_pos _ _ t Ht).
+      assert (w0 * dv <= hi * t * dv) by (apply Z.mul_le_mono_nonneg_r; lia). lia. }
+    pose proof (LO _ _ _ Bx1 Kx). pose proof (HI _ _ _ Bx1' Kx).
+    pose proof (LO _ _ _ Bx2 Kx). pose proof (HI _ _ _ Bx2' Kx).
+    pose proof (LO _ _ _ By1 Ky). pose proof (HI _ _ _ By1' Ky).
+    pose proof (LO _ _ _ By2 Ky). pose proof (HI _ _ _ By2' Ky).
+    destruct Ov.
+    repeat (apply andb_true_iff; split); lia.
+Qed.
+
+Lemma on_seg_q_swap s xn yn dv : on_seg_q (swap_sg s) xn yn dv <-> on_seg_q s xn yn dv.
+Proof.
+  destruct s as [[x1 y1] [x2 y2]]. unfold on_seg_q, on_line, in_box, swap_sg, px, py. cbn [fst snd].
+  rewrite (Z.min_comm x2), (Z.max_comm x2), (Z.min_comm y2), (Z.max_comm y2).
+  assert (E : (x1 - x2) * (yn - y2 * dv) - (y1 - y2) * (xn - x2 * dv) =
+              - ((x2 - x1) * (yn - y1 * dv) - (y2 - y1) * (xn - x1 * dv))) by ring.
+  rewrite E. split; intros [H1 H2]; (split; [lia | exact H2]).
+Qed.
+
+Lemma nonparallel_swap_l s1 s2 : nonparallel (swap_sg s1) s2 <-> nonparallel s1 s2.
+Proof.
+  destruct s1 as [[x1 y1] [x2 y2]], s2 as [[x3 y3] [x4 y4]].
+  unfold nonparallel, swap_sg, px, py. cbn [fst snd].
+  assert (E : (x2 - x1) * (y3 - y4) - (x3 - x4) * (y2 - y1) =
+              - ((x1 - x2) * (y3 - y4) - (x3 - x4) * (y1 - y2))) by ring.
+  rewrite E. lia.
+Qed.
+
+Lemma nonparallel_swap_r s1 s2 : nonparallel s1 (swap_sg s2) <-> nonparallel s1 s2.
+Proof.
+  destruct s1 as [[x1 y1] [x2 y2]], s2 as [[x3 y3] [x4 y4]].
+  unfold nonparallel, swap_sg, px, py. cbn [fst snd].
+  assert (E : (x1 - x2) * (y4 - y3) - (x4 - x3) * (y1 - y2) =
+              - ((x1 - x2) * (y3 - y4) - (x3 - x4) * (y1 - y2))) by ring.
+  rewrite E. lia.
+Qed.
+
+(* the meaning of "find_line_intersection returns something": the two closed segments are not
+   parallel and share a point (with rational coordinates xn/dv, yn/dv) *)
+Theorem hit_spec s1 s2 :
+  hit s1 s2 = true <->
+  nonparallel s1 s2 /\
+  exists xn yn dv, 0 < dv /\ on_seg_q s1 xn yn dv /\ on_seg_q s2 xn yn dv.
+Proof.
+  rewrite hit_hitc, hitc_spec.
+  rewrite <- !surjective_pairing.
+  destruct (ordx_cases s1) as [-> | ->], (ordx_cases s2) as [-> | ->];
+    rewrite ?nonparallel_swap_l, ?nonparallel_swap_r;
+    try setoid_rewrite on_seg_q_swap; reflexivity.
+Qed.
+
+(* ------------------------------------------------------------------ soundness of intersects *)
+Definition at_pt (p : pt) (xn yn dv : Z) : Prop := xn = px p * dv /\ yn = py p * dv.
+Definition on_boundary_q (s : shape) (xn yn dv : Z) : Prop :=
+  exists e, In e (all_edges s) /\ on_seg_q e xn yn dv.
+(* the closed point set of a shape, as far as the code's own notions reach: a point, the
+   segments of a path, the ring edges of a polygon/box together with the points the library's
+   membership test (C01) accepts *)
+Definition inset (w : Z) (s : shape) (xn yn dv : Z) : Prop :=
+  match s with
+  | Pt p _ => at_pt p xn yn dv
+  | Ln _ _ => on_boundary_q s xn yn dv
+  | _ => on_boundary_q s xn yn dv \/
+         exists p, at_pt p xn yn dv /\ contains_coordinate w s p = true
+  end.
+
+Lemma endpoint_on_seg_l a b : on_seg_q (a, b) (px a) (py a) 1.
+Proof.
+  destruct a as [x1 y1], b as [x2 y2]. unfold on_seg_q, on_line, in_box, px, py. cbn [fst snd].
+  repeat split; lia.
+Qed.
+
+Lemma endpoint_on_seg_r a b : on_seg_q (a, b) (px b) (py b) 1.
+Proof.
+  destruct a as [x1 y1], b as [x2 y2]. unfold on_seg_q, on_line, in_box, px, py. cbn [fst snd].
+  repeat split; lia.
+Qed.
+
+Lemma vertex_on_edge vs p : (2 <= length vs)%nat -> In p vs ->
+  exists e, In e (ring_edges vs) /\ on_seg_q e (px p) (py p) 1.
+Proof.
+  induction vs as [|a vs IH]; intros L Hp; [destruct Hp|].
+  destruct vs as [|b t]; [cbn in L; lia|].
+  rewrite ring_edges_cons.
+  destruct Hp as [<- | Hp].
+  - exists (a, b). split; [left; reflexivity | apply endpoint_on_seg_l].
+  - destruct t as [|c t'].
+    + destruct Hp as [<- | []]. exists (a, b). split; [left; reflexivity | apply endpoint_on_seg_r].
+    + destruct (IH ltac:(cbn; lia) Hp) as [e [He Ho]]. exists e. split; [right; exact He | exact Ho].
+Qed.
+
+Lemma all_edges_ln vs d : all_edges (Ln vs d) = ring_edges vs.
+Proof. unfold all_edges. cbn. apply app_nil_r. Qed.
+
+Lemma first_pt_on_boundary s : valid s -> is_pt s = false ->
+  on_boundary_q s (px (first_pt s)) (py (first_pt s)) 1.
+Proof.
+  destruct s as [p d | vs d | o hs d | nw se hs d]; cbn [valid is_pt first_pt]; intros V N; try discriminate.
+  - destruct vs as [|a [|b t]]; cbn in V; try lia.
+    exists (a, b). split; [rewrite all_edges_ln; left; reflexivity | apply endpoint_on_seg_l].
+  - destruct o as [|a [|b t]]; cbn in V; try lia.
+    exists (a, b). split; [rewrite all_edges_poly; left; reflexivity | apply endpoint_on_seg_l].
+  - exists (nw, (px nw, py se)). split; [left; reflexivity | apply endpoint_on_seg_l].
+Qed.
+
+Lemma contained_inset w s p : valid s -> contains_coordinate w s p = true ->
+  inset w s (px p) (py p) 1.
+Proof.
+  destruct s as [q d | vs d | o hs d | nw se hs d]; cbn [valid]; intros V H.
+  - cbn in H. apply pt_eqb_eq in H. subst. cbn. unfold at_pt. lia.
+  - cbn in H. apply existsb_pt_In in H. cbn [inset].
+    destruct (vertex_on_edge vs p V H) as [e [He Ho]]. exists e. rewrite all_edges_ln. auto.
+  - right. exists p. unfold at_pt. repeat split; try lia. exact H.
+  - right. exists p. unfold at_pt. repeat split; try lia. exact H.
+Qed.
+
+Lemma boundary_inset w s xn yn dv : is_pt s = false -> on_boundary_q s xn yn dv -> inset w s xn yn dv.
+Proof. destruct s; cbn; intros N H; try discriminate; auto. Qed.
+
+Theorem intersects_sound w a b : valid a -> valid b ->
+  intersects_shape w a b = Ok true ->
+  exists xn yn dv, 0 < dv /\ inset w a xn yn dv /\ inset w b xn yn dv.
+Proof.
+  intros Va Vb H.
+  destruct (is_pt a) eqn:Pa.
+  - destruct a as [p d | | |]; try discriminate.
+    exists (px p), (py p), 1. split; [lia|]. split; [cbn; unfold at_pt; lia|].
+    destruct b as [q d' | vs d' | o hs d' | nw se hs d']; cbn in H; injection H as H.
+    + apply pt_eqb_eq in H. subst. cbn. unfold at_pt. lia.
+    + apply (contained_inset w (Ln vs d')); assumption.
+    + apply (contained_inset w (Poly o hs d')); assumption.
+    + apply (contained_inset w (Box nw se hs d')); assumption.
+  - destruct (is_pt b) eqn:Pb.
+    + destruct b as [q d' | | |]; try discriminate.
+      exists (px q), (py q), 1. split; [lia|]. split; [|cbn; unfold at_pt; lia].
+      apply contained_inset; [exact Va|].
+      destruct a; try discriminate; cbn in H; injection H as H; exact H.
+    + rewrite intersects_edge_truth in H by assumption. injection H as H.
+      apply orb_true_iff in H as [H | H]; [apply orb_true_iff in H as [H | H]|].
+      * unfold edge_part, brute in H. apply existsb_exists in H as [ea [Hea H]].
+        apply existsb_exists in H as [eb [Heb H]].
+        apply hit_spec in H as [_ [xn [yn [dv [Hdv [O1 O2]]]]]].
+        exists xn, yn, dv. split; [exact Hdv|].
+        split; apply boundary_inset; auto; [exists ea | exists eb]; auto.
+      * exists (px (first_pt b)), (py (first_pt b)), 1. split; [lia|]. split.
+        -- apply contained_inset; assumption.
+        -- apply boundary_inset; [exact Pb | apply first_pt_on_boundary; assumption].
+      * exists (px (first_pt a)), (py (first_pt a)), 1. split; [lia|]. split.
+        -- apply boundary_inset; [exact Pa | apply first_pt_on_boundary; assumption].
+        -- apply contained_inset; assumption.
+Qed.
